@@ -258,7 +258,7 @@ namespace detail
 	{
 		GLM_STATIC_ASSERT(std::numeric_limits<T>::is_integer, "'bitfieldExtract' only accept integer inputs");
 
-		return (Value >> static_cast<T>(Offset)) & static_cast<T>(detail::mask(Bits));
+		return (Value >> static_cast<T>(Offset)) & static_cast<T>(detail::mask(static_cast<typename detail::make_unsigned<T>::type>(Bits)));
 	}
 
 	// bitfieldInsert
